@@ -5,4 +5,5 @@ EXTENDS ExprPool
 \* single helpers and both nestings ("map" = @map / @filter / @reduce)
 ProgsAll == {<<"map">>, <<"for">>, <<"map", "for">>, <<"for", "map">>, <<"map", "map">>}
 ProgsFlat == {<<"map">>, <<"for">>}
+ProgsMix == {<<"map">>, <<"for", "map">>}
 =============================================================================
